@@ -1,13 +1,14 @@
 #!/bin/bash
 # Runs every kept seeded change against the check of the property it breaks (plus `also_checks` of its
 # meta.json) in a scratch copy of /repo and /verif (never touches /repo). One line per seed in $1 and the
-# result is written into seeded/<id>/detection.json.
+# result is written into seeded/<id>/detection.json. ONLY=<regex> restricts the sweep to matching seed ids.
 OUT=${1:-/tmp/detect.log}; START=${2:-}; [ -n "$START" ] || : > $OUT
 S=/tmp/scratch_try
 mkdir -p $S && rsync -a --delete --exclude "target*" --exclude replays --exclude evidence /verif/ $S/verif/
 for d in /verif/seeded/*/; do
   id=$(basename $d); prop=${id%%-*}
   if [ -n "$START" ] && [[ "$id" < "$START" ]]; then continue; fi
+  if [ -n "$ONLY" ] && ! [[ "$id" =~ $ONLY ]]; then continue; fi
   patch=$d/patch.diff; [ -f $d/patch.ported.diff ] && patch=$d/patch.ported.diff
   extra=$(python3 -c "import json;print(' '.join(json.load(open('$d/meta.json')).get('also_checks',[])))" 2>/dev/null)
   line=$(NO_VERIF_SYNC=1 JOBS=${JOBS:-8} timeout 3000 /verif/tools/try_seed_scratch.sh $patch $prop $extra 2>&1 | cut -c1-300 | tr '\n' ' ')
